@@ -103,7 +103,7 @@ static ssize_t verif_read(int fd, void *buf, size_t n)
 {
   unsigned k = n_read++, avail = IN.src_len - src_pos, got;
   (void)fd;
-  PROP(n >= 1, "read() is never asked for zero bytes");
+  if (n == 0) return 0;                               /* POSIX: a zero-length read returns 0 */
   if (k >= NCALL) CUT();
   if (IN.rd[k] < 0) { errno = IN.err; return -1; }
   if (avail == 0) return 0;                            /* end of file */
@@ -119,7 +119,7 @@ static ssize_t verif_write(int fd, const void *buf, size_t n)
 {
   unsigned k = n_write++, put;
   (void)fd;
-  PROP(n >= 1, "write() is never asked for zero bytes");
+  if (n == 0) return 0;                               /* POSIX: a zero-length write returns 0 */
   PROP(sink_len + n <= write_budget, "write() is never asked for more bytes than remain to be written (no over-read after a short write)");
   if (k >= NCALL) CUT();
   if (IN.wr[k] < 0) { errno = IN.err; return -1; }
